@@ -52,7 +52,7 @@ func TestVerifC11(t *testing.T) {
 	ctx := context.Background()
 	rng := verifkit.Rand("c11")
 
-	npairs := verifkit.Pick(2000, 20000)
+	npairs := verifkit.Pick(2000, 60000)
 	seenID := sync.Map{}
 	seenSecret := sync.Map{}
 	census := func(what, who string, m *sync.Map, v string) {
